@@ -214,7 +214,9 @@ def judge_rdms(ctx, case, seed):
 def _sl_rdms(n, seed):
     from rsatoolbox.rdm import RDMs
     g = rng_for(seed, 'c19sl', n)
-    return RDMs(np.round(g.uniform(0.5, 3, size=(n, 6)), 3), rdm_descriptors={'voxel_index': list(range(10, 10 + n))})
+    # centres deliberately NOT in ascending voxel order (a user-chosen / permuted centre list)
+    vox = [12, 10, 13, 11, 9, 14][:n]
+    return RDMs(np.round(g.uniform(0.5, 3, size=(n, 6)), 3), rdm_descriptors={'voxel_index': vox})
 
 
 def _models(seed):
